@@ -128,7 +128,7 @@ class Instrs(CallsMixin):
             st.assume(cond_ok)
             return
         if con.panics_if:
-            ev = cx.evaluator(cx.entry_state, fr)
+            ev = cx.evaluator(cx.entry_state.with_sink(st), fr)
             ev.resolver = None
             allowed = z3.Or([ev.bool(c.expr) for c in con.panics_if])
             goal = z3.Or(cond_ok, allowed)
